@@ -397,6 +397,17 @@ def run_case(case):
             if k >= 12:
                 break
             C.observe_resolve(router, wpath, meth)
+    # a route hook on the shape of a registered rule, spelled with OTHER wildcard names: hooks must not change which route
+    # is selected nor the names and values the handler receives
+    for i in reg:
+        segs, fl, _m = rules[i]
+        if any(not S.is_lit(sg) for sg in segs):
+            renamed = [sg if S.is_lit(sg) else [sg[0], (None if sg[1] is None else 'hk' + str(sg[1]))] + list(sg[2:]) for sg in segs]
+            try:
+                app.on_route(S.render(renamed, fl), lambda p: None)
+            except Exception:  # noqa - a refused hook changes nothing
+                pass
+            break
     regs = [rules[i][0] for i in reg]
     methods = [rules[i][2] for i in reg]
     toks = [S.tokens(r) for r in regs]
